@@ -54,7 +54,9 @@ def units(tier):
                     if q and var in ("blank", "comment") and rot % 2:
                         continue
                     sym = "com" if var in ("trail", "comment", "both", "semi_trail") else (holes[rot % len(holes)] if holes else None)
-                    us.append(dict(h="items", raw=raw, j=j, o=o, amp=amp, var=var, sym=sym, ic=bool(rot % 3 == 0), cost=1))
+                    has_comments = var in ("trail", "comment", "both", "semi_trail")
+                    ic = ((rot // 14) % 4 == 0) if has_comments else ((rot // 14) % 2 == 0)
+                    us.append(dict(h="items", raw=raw, j=j, o=o, amp=amp, var=var, sym=sym, ic=ic, cost=1))
     for k, src in enumerate(STREAMS):
         for n in ((4, 6) if q else (4, 6, 8)):
             us.append(dict(h="putback", stream=k, nops=n, ic=False, cost=5))
